@@ -376,6 +376,136 @@ func genCases(o hx.Opts, r *hx.Rand, ks []rsKind) []kase {
 				}
 			}
 		}
+		// 6. line-end runs: paragraphs separated / preceded / followed by runs of 1-4 line ends in every
+		//    LF / CRLF mixture (plus random ones with lone CRs), delivered so that a read boundary falls at
+		//    every position of every run - also two boundaries at once, and the 64 KiB buffer edge
+		if lineEndKinds[k.name] {
+			cs = append(cs, lineEndRunCases(o, r, k)...)
+		}
+	}
+	return cs
+}
+
+var lineEndKinds = map[string]bool{"blank": true, "newline": true, "byte:CR": true, `re:\n\n+`: true}
+
+// every sequence of 1..maxUnits units from units
+func unitRuns(units []string, maxUnits int) []string {
+	var out []string
+	for n := 1; n <= maxUnits; n++ {
+		out = append(out, allStrings(units, n)...)
+	}
+	return out
+}
+
+// deliveries that put a read boundary at every position (and every pair of positions) of d
+func boundaryDeliveries(add func(d string, cuts []int, le bool, shape string), d string, shape string) {
+	n := len(d)
+	if n <= 8 {
+		for _, c := range compositions(n) {
+			add(d, c, false, shape+"/all-chunkings")
+		}
+		return
+	}
+	add(d, oneCut(n), false, shape+"/oneshot")
+	for p := 1; p < n; p++ {
+		add(d, []int{p, n - p}, false, shape+"/single-split")
+		add(d, []int{p, n - p}, true, shape+"/single-split+eof")
+		for q := p + 1; q < n; q++ {
+			add(d, []int{p, q - p, n - q}, false, shape+"/double-split")
+		}
+		// an empty read at the boundary
+		add(d, []int{p, 0, n - p}, false, shape+"/split+empty-read")
+	}
+	ones := make([]int, n)
+	for q := range ones {
+		ones[q] = 1
+	}
+	add(d, ones, false, shape+"/bytewise")
+	add(d, ones, true, shape+"/bytewise+eof")
+}
+
+func lineEndRunCases(o hx.Opts, r *hx.Rand, k *rsKind) []kase {
+	thorough := o.Tier == "thorough"
+	var cs []kase
+	seen := map[string]bool{}
+	add := func(d string, cuts []int, le bool, shape string) {
+		cs = append(cs, kase{kind: k, data: []byte(d), cuts: cuts, lastEOF: le, shape: shape})
+	}
+	deliver := func(d, shape string) {
+		if seen[d] {
+			return
+		}
+		seen[d] = true
+		boundaryDeliveries(add, d, shape)
+	}
+	text := []string{"a", "b"}
+	if !strings.Contains(strings.Join(k.alpha, ""), "\r") {
+		// the alphabet of a regex kind is also what its model-side engine was validated on: LF only
+		for _, run := range unitRuns([]string{"\n"}, 5) {
+			deliver("a"+run+"b", "line-end-runs")
+			deliver("a"+run+"b\n", "line-end-runs")
+		}
+		return cs
+	}
+	// a. exhaustive: one run of 1..4 units of LF / CRLF between two paragraphs x how the input ends
+	maxUnits := 4
+	for _, run := range unitRuns([]string{"\n", "\r\n"}, maxUnits) {
+		for _, tail := range []string{"", "\n", "\r\n"} {
+			deliver("a"+run+"b"+tail, "line-end-runs")
+		}
+	}
+	// b. the run at the start and at the end of the input
+	for _, run := range unitRuns([]string{"\n", "\r\n"}, 3) {
+		deliver(run+"a\r\n", "line-end-runs/leading")
+		deliver("a"+run, "line-end-runs/trailing")
+	}
+	// c. random: 2-3 paragraphs of 1-2 lines, runs of 2-5 units, one style or mixed incl. lone CR
+	rnd := 6
+	if thorough {
+		rnd = 40
+	}
+	styles := [][]string{{"\r\n"}, {"\n"}, {"\n", "\r\n"}, {"\n", "\r\n", "\r"}}
+	for j := 0; j < rnd; j++ {
+		st := styles[j%len(styles)]
+		var sb strings.Builder
+		for u := r.Intn(3); u > 0; u-- {
+			sb.WriteString(st[r.Intn(len(st))])
+		}
+		paras := 2 + r.Intn(2)
+		for p := 0; p < paras; p++ {
+			sb.WriteString(text[r.Intn(2)])
+			if r.Intn(2) == 0 {
+				sb.WriteString(st[r.Intn(len(st))] + text[r.Intn(2)])
+			}
+			if p == paras-1 && r.Intn(3) == 0 {
+				break
+			}
+			for u := 2 + r.Intn(4); u > 0; u-- {
+				sb.WriteString(st[r.Intn(len(st))])
+			}
+		}
+		deliver(sb.String(), "line-end-runs/random")
+	}
+	// d. the 64 KiB buffer edge at every position of a run (bufio cuts the one read there), and the
+	//    same with the reader splitting one byte earlier / later
+	edges := []string{"\r\n\r\n\r\n", "\n\r\n\n"}
+	if thorough {
+		edges = append(edges, "\r\n\r\n\r\n\r\n", "\n\n\r\n", "\r\n\n\n", "\n\r\n\r")
+	}
+	if k.name == "blank" || thorough {
+		for _, e := range edges {
+			for off := 0; off <= len(e); off++ {
+				head := 65536 - off
+				d := strings.Repeat(k.fill, head) + e + "a" + e + "b"
+				n := len(d)
+				add(d, oneCut(n), false, "line-end-runs/64k-oneshot")
+				add(d, []int{65536, n - 65536}, false, "line-end-runs/64k-split")
+				if thorough {
+					add(d, []int{65535, n - 65535}, false, "line-end-runs/64k-split")
+					add(d, []int{65537, n - 65537}, false, "line-end-runs/64k-split")
+				}
+			}
+		}
 	}
 	return cs
 }
@@ -688,7 +818,7 @@ func main() {
 		return
 	}
 	rep := hx.NewReport("C07", o.Seed, o.Tier)
-	rep.Rule = "per RS kind (newline, 6 single bytes incl. NUL and 0xFF, empty, 1 multi-byte char, 8 regexes): every input up to 4 (thorough 5) alphabet units x EVERY chunking; random inputs up to 8 (thorough 12) bytes x every chunking; 15-55 byte inputs x every single split point, bytewise delivery, random chunkings with 0-byte reads, final read with io.EOF; 100/101 empty reads; 64 KiB-edge inputs split at 65535/65536/65537 and by bufio itself; interleaving: getline from side files of 1/300/5000/70000 bytes, from two files, from a command, between main records under whole/split/bytewise delivery. distinct = distinct (RS, input, reads) triple; non-trivial = non-empty input"
+	rep.Rule = "per RS kind (newline, 6 single bytes incl. NUL and 0xFF, empty, 1 multi-byte char, 8 regexes): every input up to 4 (thorough 5) alphabet units x EVERY chunking; random inputs up to 8 (thorough 12) bytes x every chunking; 15-55 byte inputs x every single split point, bytewise delivery, random chunkings with 0-byte reads, final read with io.EOF; 100/101 empty reads; 64 KiB-edge inputs split at 65535/65536/65537 and by bufio itself; line-end runs (RS newline, CR, empty, \\n\\n+): every LF/CRLF mixture of 1-4 line ends between, before and after paragraphs plus random ones with lone CRs x every chunking (<= 8 bytes) or every single and double split point, split with empty read, bytewise, with io.EOF, and the 64 KiB buffer edge at every position of a CRLF run checked against the same input with a short first record; interleaving: getline from side files of 1/300/5000/70000 bytes, from two files, from a command, between main records under whole/split/bytewise delivery. distinct = distinct (RS, input, reads) triple; non-trivial = non-empty input"
 	r := hx.NewRand(o.Seed)
 	ks := kinds()
 	// a few random regexes without anchors (Lib/Regex.v is validated against Go's regexp separately)
@@ -780,6 +910,30 @@ func main() {
 			refs[key] = ref
 			rep.SearchEvals++
 			checkRef(rep, k, ref)
+		}
+		// 64 KiB edge inside a line-end run: the one-read reference is itself cut there by bufio's buffer, so
+		// the reference is the same input with the long first record shortened to fit one buffer
+		if strings.HasPrefix(k.shape, "line-end-runs/64k") {
+			h := 0
+			for h < len(k.data) && k.data[h] == k.kind.fill[0] {
+				h++
+			}
+			skey := k.kind.rs + "\x00short\x00" + string(k.data[h:])
+			short, ok := refs[skey]
+			if !ok {
+				sd := append([]byte(k.kind.fill), k.data[h:]...)
+				short = runImpl(k.kind.rs, sd, oneCut(len(sd)), false)
+				refs[skey] = short
+			}
+			rep.SearchEvals++
+			if h > 0 && len(short.recs) > 0 {
+				want := result{stop: short.stop, recs: append([]rec(nil), short.recs...)}
+				want.recs[0].s = strings.Repeat(k.kind.fill, h-1) + want.recs[0].s
+				if got.canon() != want.canon() {
+					rep.Fail(hx.Failure{Class: classifyChunkDiff(k, got, want), Oracle: "records and RT after a first record longer than the 64 KiB buffer = those after a short first record",
+						Detail: detail(k, got, clip(want.canon()))})
+				}
+			}
 		}
 		if k.oneshot() {
 			continue
